@@ -882,3 +882,12 @@ Proof.
   - intros w1 w2 t [].
   - intro w. destruct w; reflexivity.
 Qed.
+
+Lemma inv_set_tq mx specs s d tr cur ct Q R q' :
+  INV mx specs s d tr cur ct Q R -> QOK q' -> Permutation (all_items q') (map Z.of_nat Q) ->
+  INV mx specs (s_tq s q') d tr cur ct Q R.
+Proof.
+  intros H Hq Hp.
+  destruct H as [Htq Hcq Htqi Hcqi Hcts Htb Htp Hwp Hnd Hlt HQnd HQst Hlen Hrun Hpark Hoth Hscnd Hsc Hsusp Hr Hres Hact Hasl Hinj Htrk Htrkl Hclk Hnsl].
+  constructor; try assumption.
+Qed.
